@@ -100,6 +100,18 @@ def gen_cases(rng, tier):
             (a, _), (b, _) = rng.choice(us), rng.choice(us)
             ops.append(["ucmp", rng.choice(["lt", "le", "gt", "ge"]), a, b])
     cases.append({"ops": ops, "fork": True, "tags": ["doc-rows", "unit-order"]})
+    # the catalogue's symbols are taken: another quantity type cannot declare
+    # a unit under one of them, and the catalogue unit stays what it was
+    ops = [["load_predefined"], ["decl_class", "UserCount", "-", "uc0", "0", "-"]]
+    taken = rng.sample([sy for c, sy, k in ref if c != "Temperature"], 6) + ["mi", "st", "km"]
+    for sy in taken:
+        ops.append(["new_unit", "UserCount", sy, "qty", "10", "uc0", MODE])
+        ops.append(["unit_info", sy])
+        other = rng.choice([b for b, _ in by_cls[next(c for c, s2, _ in ref if s2 == sy)]])
+        if next(c for c, s2, _ in ref if s2 == sy) != "DataVolume":
+            ops.append(["q_conv", f"1@{sy}", other, MODE])
+    ops.append(["decl_class", "UserCount2", "-", rng.choice(["m", "kg", "s"]), "0", "-"])
+    cases.append({"ops": ops, "fork": True, "tags": ["symbols-taken"]})
     # SI prefixes by the name of their module-level constant
     cases.append({"ops": [["prefix", n] for n in PREFIX_EXP], "fork": False, "tags": ["prefixes"]})
     return cases
@@ -173,6 +185,12 @@ def oracle(case, impl):
                                   f"{s}: got {units.get(s)} want {want.get(s)}" for s in bad[:8])})
             if classes.get("DataVolume", {}).get("quantum") != "1/8":
                 fails.append({"site": "cat:quantum", "msg": str(classes.get("DataVolume"))})
+        elif o[0] == "new_unit" and o[2] in scale:
+            if out != "err ValueError":
+                fails.append({"site": "cat:symbol-taken", "msg": f"{o} -> {out}"})
+        elif o[0] == "decl_class" and o[3] in scale:
+            if out != "err ValueError":
+                fails.append({"site": "cat:symbol-taken", "msg": f"{o} -> {out}"})
         elif o[0] == "unit_info":
             sy = o[1]
             k = scale[sy]
